@@ -102,10 +102,6 @@ def run(ctx):
       'time passes only when every thread waits or polls (virtual clock)',
   ]
   explorer.explore_all(ctx, MODULE, sh + il, pre_bound=-1, dev_bound=0)
-  small = [('sharded', dict(W=1, S=1, total=2, batch=2, mode='delay')),
-           ('interleaved', dict(total=2, batch=2, pool=True, W=1, mode='delay'))]
-  explorer.explore_all(ctx, MODULE, small, pre_bound=1 if ctx.quick else 2,
-                       split=16, hb_cache=True)
   # the orchestrating loops may be arbitrarily slow at any one executed line
   # (environment choice "pause here until everybody else has run as far as
   # possible"): every placement of one pause
@@ -115,8 +111,15 @@ def run(ctx):
             ('interleaved', dict(total=4, batch=2, pool=True, W=2, buf=1,
                                  fuse=False, pause=True)),
             ('interleaved', dict(total=3, batch=2, pool=True, W=1, pause=True))]
-  explorer.explore_all(ctx, MODULE, paused, pre_bound=-1,
-                       dev_bound=1 if ctx.quick else 2, split=16)
+  if not ctx.quick:
+    paused += [('sharded', dict(W=3, S=4, total=7, batch=2, pause=True)),
+               ('sharded', dict(W=2, S=2, total=5, batch=2, ibs=2, fuse=False,
+                                pause=True)),
+               ('sharded', dict(W=2, S=3, total=7, batch=2, sliced=True,
+                                pause=True)),
+               ('interleaved', dict(total=5, batch=2, pool=True, W=2, buf=2,
+                                    pause=True))]
+  explorer.explore_all(ctx, MODULE, paused, pre_bound=-1, dev_bound=1, split=16)
   ctx.notes['slow_orchestrator_configurations'] = len(paused)
   # replies may arrive late (not a fault: the reply is delivered, but only
   # after everybody else has run as far as possible): every placement of one
@@ -134,6 +137,14 @@ def run(ctx):
                        dev_bound=1 if ctx.quick else 2, split=8)
   ctx.notes['slow_reply_configurations'] = len(slow)
   ctx.pmap(_strict_count_unit, [0])
+  # the smallest instance of each driver under delay-bounded schedule
+  # exploration (last: the thorough bound may be cut by the time budget)
+  small = [('sharded', dict(W=1, S=1, total=2, batch=2, mode='delay')),
+           ('interleaved', dict(total=2, batch=2, pool=True, W=1, mode='delay'))]
+  explorer.explore_all(ctx, MODULE, small, pre_bound=1, split=16, hb_cache=True)
+  if not ctx.quick:
+    explorer.explore_all(ctx, MODULE, small, pre_bound=2, split=16,
+                         hb_cache=True)
   ctx.notes['configurations'] = len(sh) + len(il)
   ctx.sample({'harness': 'sharded', 'params': sh[5][1]})
 
